@@ -49,6 +49,11 @@ def build(check, tier, seed, m, wall, known_hits, unknown, inconclusive_reasons)
 
 def write(prop, ev):
     d = os.path.join(core.VERIF_DIR, "evidence")
+    if os.environ.get("VMON_REPO"):
+        # a run against a scratch copy of the repository (seeded changes,
+        # mutants) is not evidence about /repo: keep it out of evidence/
+        d = os.path.join(core.VERIF_DIR, "out", "evidence_scratch",
+                         os.path.basename(os.environ["VMON_REPO"].rstrip("/")))
     os.makedirs(d, exist_ok=True)
     with open(os.path.join(d, prop + ".json"), "w") as f:
         json.dump(core.jsonable(ev), f, indent=1, sort_keys=False)
